@@ -100,7 +100,7 @@ static void keep_blocks(const unsigned char* b, size_t n)
 }
 static void* rng_thr(void* arg)
 {
-	uint64_t s = SEED * 31 + (uintptr_t)arg * 7919 + 3; unsigned r, k, depth = 0; unsigned char buf[256];
+	uint64_t s = SEED * 31 + (uintptr_t)arg * 7919 + 3; unsigned r, k, depth = 0; static __thread unsigned char buf[4352];
 	pthread_barrier_wait(&bar);
 	for (r = 0; r < ROUNDS; ++r)
 	{
@@ -112,16 +112,28 @@ static void* rng_thr(void* arg)
 		for (k = 0; k < nops; ++k)
 		{
 			unsigned op = (unsigned)(xs(&s) % 8); size_t n = 1 + (size_t)(xs(&s) % 200), i, untouched = 0;
+			static const size_t big[8] = {1024, 2048, 1000, 1023, 1025, 3072, 4096, 2500};
+			if ((xs(&s) & 15) == 0) n = big[xs(&s) & 7];		/* long requests: every part of the buffer must be filled */
 			maybe_yield(&s);
 			switch (op)
 			{
 			case 0: case 1: case 2:
-				memset(buf, 0xA5, sizeof(buf));
+				memset(buf, 0xA5, n + 64 <= sizeof(buf) ? n + 64 : sizeof(buf));
 				if (op == 0) rngStepR(buf, n, 0); else rngStepR2(buf, n, 0);
 				for (i = 0; i < n; ++i) untouched += buf[i] == 0xA5;
 				INV(n < 24 || untouched < n / 2, "rngStepR%s(%zu) left the buffer (mostly) untouched", op ? "2" : "", n);
-				for (i = n; i < sizeof(buf); ++i) if (buf[i] != 0xA5) { INV(0, "rngStepR wrote past the requested %zu octets", n); break; }
-				if (op != 0) keep_blocks(buf, n);	/* StepR mixes entropy sources in front; StepR2 output is pure generator output */
+				if (n >= 256)
+				{
+					size_t w;
+					for (w = 0; w + 128 <= n; w += 128)
+					{
+						size_t u = 0;
+						for (i = w; i < w + 128; ++i) u += buf[i] == 0xA5;
+						if (u > 64) { INV(0, "rngStepR%s(%zu) did not fill octets %zu..%zu of the request", op ? "2" : "", n, w, w + 127); break; }
+					}
+				}
+				for (i = n; i < n + 64 && i < sizeof(buf); ++i) if (buf[i] != 0xA5) { INV(0, "rngStepR wrote past the requested %zu octets", n); break; }
+				if (op != 0) keep_blocks(buf, n < 256 ? n : 256);	/* StepR mixes entropy sources in front; StepR2 output is pure generator output */
 				break;
 			case 3: rngRekey(); break;
 			case 4: INV(rngIsValid(), "rngIsValid() is FALSE while a reference is held"); break;
